@@ -1,6 +1,6 @@
 (* Decoding of C14 cases and verdicts. *)
 From Coq Require Import List NArith Bool.
-From FS Require Import Sx Model.Path Model.Stat Model.Tree Model.Converge.
+From FS Require Import Sx Model.Path Model.Stat Model.Tree Model.Converge Model.Fs Model.RootPath Glue.C03G.
 Import ListNotations.
 Open Scope bool_scope.
 
@@ -29,6 +29,70 @@ Definition run_1401 (input impl : sx) : sx :=
                    + (if no_leak then 0 else 8) + (if ran then 0 else 16))%N in
       verdict impl impl (outside_same && top_same && src_same && no_leak && ran) (SL [SN code])
     | _, _, _ => v_malformed
+    end
+  | _ => v_malformed
+  end.
+
+(* ---------------------------------------------------------------------------------------
+   kind 1403: input = (ops root path follow); impl = (op-results snapshot rp) where the ops
+   (encoding of kind 0301) built a tree in an empty jail, the snapshot was taken by an lstat
+   walk, and rp is what the REAL copy.rootPath returned: (0 path) | (1 code).
+   Model: the same ops run on Model/Fs.v, then Model/RootPath.copy_root_path.
+   Specification (theorem rootpath_result_link_free), evaluated on the implementation's result
+   against the implementation's snapshot, without path resolution: the result is root followed
+   by names only (no "." / ".." / empty component), and no prefix of it strictly below root
+   is a symbolic link in the snapshot (the final name is exempt when follow = false). *)
+Definition enc_rp (r : bytes + rp_err) : sx :=
+  match r with
+  | inl p => SL [SN 0; SB p]
+  | inr RpTooManyLinks => SL [SN 1; SN 999]
+  | inr (RpErrno e) => SL [SN 1; SN (errno_code e)]
+  | inr RpFuel => SL [SN 1; SN 997]
+  end.
+
+Definition snap_type (snap : list sx) (p : bytes) : option N :=
+  match find (fun e => match e with SL (SB q :: _) => bytes_eqb p q | _ => false end) snap with
+  | Some (SL [_; _; SL (SN t :: _)]) => Some t
+  | _ => None
+  end.
+
+(* prefixes [c1], [c1;c2], ... of a component list *)
+Fixpoint prefixes_from (acc : list bytes) (cs : list bytes) : list (list bytes) :=
+  match cs with
+  | [] => []
+  | c :: r => (acc ++ [c]) :: prefixes_from (acc ++ [c]) r
+  end.
+
+Definition rp_spec (snap : list sx) (root out : bytes) (follow : bool) : bool :=
+  has_prefix root out &&
+  (let rest := skipn (length root) out in
+   (bytes_eqb root [sep] || is_nil rest || is_abs rest) &&
+   (let cs := pcs rest in
+    let rcs := pcs root in
+    forallb name_ok cs &&
+    bytes_eqb out (render (rcs ++ cs)) &&
+    (let pre := prefixes_from [] cs in
+     let checked := if follow then pre else removelast pre in
+     forallb (fun p => match snap_type snap (joinc (rcs ++ p)) with
+                       | Some 40960 => false
+                       | _ => true
+                       end) checked))).
+
+Definition run_1403 (input impl : sx) : sx :=
+  match input with
+  | SL [SL ops; SB root; SB path; fl] =>
+    match sx_bool fl, run_ops (ctx_init, fs_init) ops [] with
+    | Some follow, Some (f, rs) =>
+      let model := SL [SL rs; enc_snapshot (snapshot_from f 1);
+                       enc_rp (copy_root_path ctx_init f root path follow)] in
+      match impl with
+      | SL [_; SL snap; SL [SN 0; SB out]] =>
+        let ok := rp_spec snap root out follow in
+        verdict model impl ok (SL [SN 1])
+      | SL [_; SL _; SL [SN 1; SN _]] => verdict model impl true (SL [])
+      | _ => v_malformed
+      end
+    | _, _ => v_malformed
     end
   | _ => v_malformed
   end.
